@@ -466,6 +466,12 @@ impl World
         g.clock += 1;
     }
 
+    /* where on the time axis this workspace lives (before anything is written) */
+    pub fn set_clock(&self, now : u64)
+    {
+        self.lock().clock = now;
+    }
+
     pub fn snapshot(&self) -> (Disk, u64)
     {
         let g = self.lock();
@@ -588,7 +594,7 @@ impl WorldInner
             {
                 // a bijection on 40-bit numbers (odd multiplier), so distinct counters give distinct stamps
                 self.clock += 1;
-                1_000_000 + (self.clock.wrapping_mul(0x9E37_79B9_7F4A_7C15) & 0xff_ffff_ffff)
+                (self.clock & !0xffff_ffff_ffffu64) + 1_000_000 + (self.clock.wrapping_mul(0x9E37_79B9_7F4A_7C15) & 0xff_ffff_ffff)
             },
         }
     }
